@@ -124,6 +124,7 @@ func c20Prog(r *Rng, idx int) *Prog {
 			o.Suggested = []string{"sugb", "suga", "other", "sugc"}
 		} else if o.Kind.IsStr() && !validDone && o.Env == "" && !o.Required {
 			o.Valid = []string{"debug", "info", "warn", "error", "info", "fatal", "debug"} // repeated entries
+			o.ValidSplit = idx%2 == 1                                                      // given through two ValidValues modifiers
 			validDone = true
 		}
 	}
